@@ -703,10 +703,13 @@ void printAstTermNode(ASTNode const & astNode, Logic const & logic) {
         printAstTermNode(named_term, logic);
         std::cout << " ";
         printAstText(name_attr, logic);
-        ASTNode const & sym = **(name_attr.children->begin());
-        assert(sym.getType() == SYM_T or sym.getType() == QSYM_T);
-        std::cout << " ";
-        printAstText(sym, logic);
+        // the value of an attribute is optional: (! t :flag)
+        if (name_attr.children and not name_attr.children->empty()) {
+            ASTNode const & sym = **(name_attr.children->begin());
+            assert(sym.getType() == SYM_T or sym.getType() == QSYM_T);
+            std::cout << " ";
+            printAstText(sym, logic);
+        }
         std::cout << ')';
     } else if (t == LET_T) {
         std::cout << "(let ";
